@@ -20,7 +20,7 @@ sys.path.insert(0, os.path.join(os.path.dirname(os.path.dirname(os.path.abspath(
 from vlib import OkV, Internal, coq_str, coq_z, REPO  # noqa: E402
 
 LEVEL = 'proof'
-RULE = ('modules from tools/gen/irgen.py (seeded; all features incl. locals/parameters shadowing module-level names, calls to later functions, shuffled block order, volatile, initialised '
+RULE = ('modules from tools/gen/irgen.py (seeded; all features incl. locals/parameters shadowing module-level names, calls to later functions, several blob types of equal size/different alignment, shuffled block order, volatile, initialised '
         'globals, copyblob, undefined, float bit patterns, big constants) plus hand-made witnesses; per module one '
         'writer case (real dict vs model JSON) and one round-trip case (real from_json(to_json) vs model); '
         'non-trivial = module with at least one function whose real round trip terminates normally')
@@ -165,6 +165,8 @@ def classify(d):
         return 'volatile-lost'
     if 'bytes' in d and 'None' in d:
         return 'variable-value-lost'
+    if "('blob'" in d or "'blob'" in d or 'blob' in d:
+        return 'blob-type-changed'
     import re
     tags = re.findall(r'<([a-z]+)>', d)
     return 'structural-difference' + (' in ' + tags[-1] if tags else '') if d.startswith('module') else 'other: ' + d[:60]
@@ -301,7 +303,9 @@ def run(ctx):
     for k in range(n):
         feats = None if k % 4 else tuple(f for f in irgen.ALL_FEATURES if f != 'shuffle')
         if k % 4 in (1, 3):
-            feats = irgen.ALL_FEATURES_X     # + locals/parameters shadowing module-level names, calls to later functions
+            # + locals/parameters shadowing module-level names, calls to later functions; every other one also
+            # several blob types of equal size / different alignment in get_type positions
+            feats = irgen.ALL_FEATURES_XB if k % 4 == 1 else irgen.ALL_FEATURES_X
         mods.append(irgen.gen_module(ctx.rng, size=1 + k % 4, features=feats, name='m%d' % k))
     for m in mods:
         term = irimport.module_to_coq(m)
@@ -359,7 +363,8 @@ def search(ctx, deep=False):
     rng = random.Random(ctx.seed * 7919 + 16)
     classes = {}
     for k in range(n):
-        m = irgen.gen_module(rng, size=1 + k % 4, features=irgen.ALL_FEATURES_X if k % 2 else None, name='s%d' % k)
+        m = irgen.gen_module(rng, size=1 + k % 4, features=(irgen.ALL_FEATURES_XB if k % 4 == 1 else irgen.ALL_FEATURES_X) if k % 2 else None,
+                             name='s%d' % k)
         d = oracle(irimport, irutils, m)
         if d is None:
             continue
@@ -369,8 +374,44 @@ def search(ctx, deep=False):
             ctx.violation({'fn': 'from_json(to_json(m))', 'key': c, 'class': c, 'difference': d,
                            'generator': {'seed': ctx.seed * 7919 + 16, 'index': k},
                            'module_json': _safe_json(irio, m)})
-    ctx.cov['stages']['oracle_search'] = {'modules': n, 'failure_classes': classes}
+    ncf = 0
+    try:
+        cmods = c_frontend_modules()
+    except Exception as ex:   # noqa: BLE001
+        ctx.log('C front-end corpus not available: %s' % ex)
+        cmods = []
+    for name, m in cmods:
+        ncf += 1
+        d = oracle(irimport, irutils, m)
+        if d is not None:
+            c = 'c-frontend: ' + classify(d)
+            classes[c] = classes.get(c, 0) + 1
+            if classes[c] == 1:
+                ctx.violation({'fn': 'from_json(to_json(m))', 'key': c, 'class': c, 'difference': d, 'c_source': name,
+                               'module_json': _safe_json(irio, m)})
+    ctx.cov['stages']['oracle_search'] = {'modules': n, 'c_frontend_modules': ncf, 'failure_classes': classes}
     ctx.cov['evaluations'] += n
+
+
+C_SOURCES = [
+    "struct A {int x, y;}; struct B {double d;}; int fa(struct A a) { return a.x + a.y; } double fb(struct B b) { return b.d; } "
+    "int g(struct A a, struct B b) { return fa(a) + (int)fb(b); }",
+    "struct P {char c[8];}; struct Q {long l;}; struct P mk(struct Q q) { struct P p; p.c[0] = (char)q.l; return p; } "
+    "long use(struct P p, struct Q q) { return p.c[0] + q.l; }",
+    "struct S {short a, b, c, d;}; struct T {int i; int j;}; struct U {double d;}; void cp(struct S *s, struct T *t, struct U *u); "
+    "int h(struct S s, struct T t, struct U u) { cp(&s, &t, &u); return s.a + t.i; }",
+]
+
+
+def c_frontend_modules():
+    """modules from the C front-end with by-value struct parameters (blob types of equal size, different alignment)"""
+    import io
+    from ppci.api import c_to_ir
+    out = []
+    for k, src in enumerate(C_SOURCES):
+        for arch in ('x86_64', 'arm'):
+            out.append(('c%d_%s' % (k, arch), c_to_ir(io.StringIO(src), arch)))
+    return out
 
 
 def replay_witness(k):
